@@ -833,3 +833,20 @@ func init() {
 		return c.e.sliceToStr(sl), callDone
 	}
 }
+
+func init() {
+	for _, n := range []string{"Min", "Max"} {
+		n := n
+		intrinsics["math."+n] = func(c *callCtx, a []Value) (Value, callStatus) {
+			x, y := termArg(a[0]), termArg(a[1])
+			if x.IsConst() && y.IsConst() {
+				fx, fy := math.Float64frombits(x.V), math.Float64frombits(y.V)
+				if n == "Min" {
+					return BV(64, math.Float64bits(math.Min(fx, fy))), callDone
+				}
+				return BV(64, math.Float64bits(math.Max(fx, fy))), callDone
+			}
+			return UF("math_"+n, 64, x, y), callDone
+		}
+	}
+}
